@@ -6,6 +6,7 @@ import Driver.Sandbox
 import Driver.Audit
 import Driver.Migrate
 import Driver.Canon
+import Driver.DiffReport
 open Sfw
 
 /-- a suite is a state machine over protocol lines -/
@@ -25,6 +26,7 @@ def dispatch (suite : String) : Option Suite :=
   | "audit" => some (pureSuite Driver.auditStep)
   | "migrate" => some { σ := Sfw.Migrate.JsonDb, init := Sfw.Migrate.JsonDb.empty, step := Driver.migrateStep }
   | "canon" => some { σ := Driver.CanonState, init := Driver.CanonState.init, step := Driver.canonStep }
+  | "diffreport" => some (pureSuite Driver.diffReportStep)
   | "store" => some { σ := Sfw.Store.KV, init := Sfw.Store.init, step := Driver.storeStep }
   | _ => none
 
